@@ -278,6 +278,12 @@ type WrapUser struct {
 	L []int
 }
 
+// PB is comparable with ==, but only by the identity of the pointer it holds.
+type PB struct {
+	P *int
+	N int
+}
+
 // Unit has nothing to compare, OnlyPad only padding.
 type Unit struct{}
 
